@@ -40,6 +40,15 @@ pub fn scratch_root() -> PathBuf {
 
 pub fn fresh_dir() -> PathBuf {
     let n = DIR_COUNTER.fetch_add(1, Ordering::SeqCst);
+    // the child process of C08's real-abort cross-check keeps its store where the parent can find it
+    if n == 0 {
+        if let Ok(fixed) = std::env::var("VERIF_FIXED_DIR") {
+            let d = PathBuf::from(fixed);
+            let _ = std::fs::remove_dir_all(&d);
+            std::fs::create_dir_all(&d).expect("create fixed dir");
+            return d;
+        }
+    }
     let d = scratch_root().join(format!("db{}", n));
     let _ = std::fs::remove_dir_all(&d);
     std::fs::create_dir_all(&d).expect("create scratch dir");
